@@ -48,7 +48,22 @@ def run_history(world_cls, seed, hist, params=None):
     w = world_cls(seed, **(params or {}))
     obs = []
     for ev in hist:
-        obs.append(w.apply(tuple(ev)))
+        try:
+            obs.append(w.apply(tuple(ev)))
+        except HarnessError:
+            raise
+        except Exception as exc:  # noqa: BLE001 -- the library raised on a legal call of the alphabet
+            import traceback
+
+            tb = traceback.extract_tb(exc.__traceback__)
+            lib = [fr for fr in tb if "/grid/" in fr.filename and "/vf/" not in fr.filename]
+            if not lib:
+                raise
+            where = f"{lib[-1].filename.split('/')[-1]}:{lib[-1].lineno}:{lib[-1].name}"
+            w.violations.append((f"event-raised:{ev[0]}:{type(exc).__name__}:{where}",
+                                 f"event {tuple(ev)} raised {type(exc).__name__}: {exc} (at {where})", {}))
+            obs.append(("exception", type(exc).__name__))
+            break
     return w, obs
 
 
@@ -135,7 +150,7 @@ def explore(ctx, world_path, depth, params=None, twice_every=1, fresh_every=0, s
             off += len(sh)
         nxt = []
         new_states = 0
-        for res in lattice.pmap(_expand_shard, args, ctx.workers):
+        for res in lattice.pmap(_expand_shard, args, ctx.workers, guard=False):
             for rec in res:
                 transitions += 1
                 executed += 1 + (1 if rec["twice"] else 0)
